@@ -760,4 +760,45 @@ example :
   simp only [RTOk, RTOkKVs, RTOkList]
   exact ⟨⟨trivial, trivial, by decide, trivial, trivial⟩, trivial, trivial⟩
 
+/-! ## the paths named in the error message -/
+
+mutual
+private theorem bk_v : ∀ (v : PVal) (c : List Key), findBadKeys c v ≠ [] → Supported v = false
+  | .dict kvs, c, h => by
+    simp only [findBadKeys] at h
+    simpa [Supported] using bk_k kvs c h
+  | .none, _, h | .bool _, _, h | .int _, _, h | .float _, _, h | .str _, _, h | .npStr _, _, h
+  | .npInt _, _, h | .npFloat _, _, h | .npBool _, _, h | .list _, _, h | .tuple _, _, h
+  | .set _, _, h | .ndarray _, _, h | .quantity _ _, _, h | .quantityArr _ _, _, h | .unit _, _, h
+  | .process _, _, h | .function _, _, h | .unsupported _, _, h => by simp [findBadKeys] at h
+private theorem bk_k : ∀ (kvs : List (Key × PVal)) (c : List Key),
+    findBadKeys.go c kvs ≠ [] → SupportedKVs kvs = false
+  | [], _, h => by simp [findBadKeys.go] at h
+  | (k, v) :: rest, c, h => by
+    simp only [findBadKeys.go] at h
+    by_cases h1 : findBadKeys (c ++ [k]) v = []
+    · by_cases h2 : findBadKeys.go c rest = []
+      · cases k with
+        | str s => simp [h1, h2] at h
+        | strSub s => simp [h1, h2] at h
+        | npStr s => simp [SupportedKVs, Key.isStr]
+        | other s => simp [SupportedKVs, Key.isStr]
+      · simp [SupportedKVs, bk_k rest c h2]
+    · simp [SupportedKVs, bk_v v (c ++ [k]) h1]
+end
+
+/-- **The error message is sound**: every path that `find_numpy_and_non_strings` names (a path
+through dictionaries ending in a non-`str` or `np.str_` key) belongs to a value that
+`serialize_value` indeed rejects.  (The converse does not hold: an unsupported leaf, a bad key
+below a list, or a key of another `str` subclass is rejected with an empty list of paths —
+`test_unsupported_types` shows it.) -/
+theorem badkeys_sound (v : PVal) (p : List Key) (h : p ∈ findBadKeys [] v) :
+    serialize v = .error .typeError :=
+  rejects v (bk_v v [] (List.ne_nil_of_mem h))
+
+example : findBadKeys [] (.dict [(.str "string", .dict [(.npStr "1", .int 3)]), (.other "1", .none)]) =
+    [[.str "string", .npStr "1"], [.other "1"]] := by rfl
+example : findBadKeys [] (.list [.dict [(.other "1", .none)]]) = [] ∧
+    serialize (.list [.dict [(.other "1", .none)]]) = .error .typeError := by constructor <;> rfl
+
 end VivProps.C14
